@@ -888,15 +888,25 @@ func deepGet(m map[string]any, keys ...string) (any, bool) {
 	return m, true
 }
 
-func deepSet(m map[string]any, keys []string, value any) {
+// deepSet reports false when a key is used both as a value and as an object.
+func deepSet(m map[string]any, keys []string, value any) bool {
 	for i := 0; i < len(keys)-1; i++ {
 		key := keys[i]
 		if _, ok := m[key]; !ok {
 			m[key] = make(map[string]any)
 		}
-		m = m[key].(map[string]any)
+		next, ok := m[key].(map[string]any)
+		if !ok {
+			return false
+		}
+		m = next
 	}
-	m[keys[len(keys)-1]] = value
+	last := keys[len(keys)-1]
+	if _, ok := m[last].(map[string]any); ok {
+		return false
+	}
+	m[last] = value
+	return true
 }
 
 func findNestedSchema(parentSchema *openapi3.SchemaRef, keys []string) (*openapi3.SchemaRef, error) {
@@ -930,7 +940,10 @@ func makeObject(props map[string]string, schema *openapi3.SchemaRef) (map[string
 			p := pathFromKeys(keys)
 			return nil, &ParseError{path: p, Kind: KindInvalidFormat, Reason: "array items must be set with indexes"}
 		}
-		deepSet(mobj, keys, value)
+		if !deepSet(mobj, keys, value) {
+			p := pathFromKeys(keys)
+			return nil, &ParseError{path: p, Kind: KindInvalidFormat, Reason: "property is set both as a value and as an object"}
+		}
 	}
 	r, err := buildResObj(mobj, nil, "", schema)
 	if err != nil {
